@@ -933,7 +933,10 @@ impl Sim {
                     let (image_at_start, budget) = {
                         let mut w = self.world.borrow_mut();
                         let max_len = ctx.images.iter().map(|i| i.len()).max().unwrap_or(0);
-                        let budget = 2 * max_len as u64 + plan.n_events() as u64 + 64;
+                        // Generous on purpose: a loader may legitimately make several complete
+                        // passes (retry by re-opening, read twice to validate). Only a loader
+                        // that makes no progress at all exceeds it.
+                        let budget = 8 * max_len as u64 + 64 * plan.n_events() as u64 + 1024;
                         w.ctr.inc(C::loads);
                         w.ctr.add(C::eintr_planned, plan.eintr_at.len() as u64);
                         w.ctr.add(C::hard_planned, plan.hard.len() as u64);
@@ -1098,6 +1101,10 @@ impl Sim {
                                 w.ctr.inc(C::o2_evaluations);
                                 outcome = 1;
                                 if fired.any_error_like() {
+                                    w.ctr.inc(C::loads_err_after_fault);
+                                } else if fired.replace.is_some() && a.opens >= 2 {
+                                    // The loader opened the file twice and the file changed in
+                                    // between: refusing to answer is not a wrong answer.
                                     w.ctr.inc(C::loads_err_after_fault);
                                 } else {
                                     violation = Some(mk(
